@@ -337,6 +337,7 @@ type LoopSpec struct {
 
 type FuncSpec struct {
 	Hints     bool // emit array-store instantiation hints while encoding this function
+	OpaqueMul bool // products of two non-constant program integers are encoded as the uninterpreted umul(a, b) (clause "opaquemul")
 	Key       string
 	Pkg       string
 	Params    []string // receiver first
@@ -413,7 +414,7 @@ func parseFunParams(s string) []FunParam {
 var modsets = map[string]string{}
 
 var clauseKW = map[string]bool{"fun": true, "modset": true, "pred": true, "func": true, "lemma": true, "props": true, "requires": true,
-	"modifies": true, "allocs": true, "ensures": true, "loop": true, "inline": true, "trusted": true, "assert": true, "case": true, "locks": true, "locked": true, "guarded": true, "hints": true, "ghost": true, "jsonclosed": true, "onlypassedto": true}
+	"modifies": true, "allocs": true, "ensures": true, "loop": true, "inline": true, "trusted": true, "assert": true, "case": true, "locks": true, "locked": true, "guarded": true, "hints": true, "opaquemul": true, "ghost": true, "jsonclosed": true, "onlypassedto": true}
 
 func (P *Program) loadContracts() error {
 	for name, pkg := range P.Pkgs {
@@ -655,6 +656,8 @@ func (P *Program) loadContractFile(pkg, file string) error {
 				cur.Props = append(cur.Props, strings.Fields(rc.text)...)
 			case "hints":
 				cur.Hints = true
+			case "opaquemul":
+				cur.OpaqueMul = true
 			case "locks":
 				cur.Locks = true
 			case "locked":
